@@ -7,6 +7,7 @@ package main
 // check reads the exit status, stderr and the (line-flushed) trace.
 
 import (
+	"bytes"
 	"flag"
 	"fmt"
 	"math"
@@ -274,6 +275,82 @@ func crashfuzzCmd(args []string) int {
 		close(stop)
 		wg.Wait()
 		sink.Emit("drv", "crash.case", "msg", "NatHoleVisitor", "class", "baseline", "phase", "after-login", "alive", alive())
+	}
+	// phase 3: values taken from a NewProxy message are used long after the message was handled (limiters, routes, header
+	// rewrites): every definition below is registered and, where frps accepts it, traffic is passed through its endpoint
+	{
+		vhost := srv.Cfg.VhostHTTPPort
+		type useCase struct {
+			class string
+			np    *msg.NewProxy
+		}
+		nonutf := "bad\xff\xfe\x00utf"
+		uses := []useCase{
+			{"baseline", &msg.NewProxy{ProxyName: "use-plain", ProxyType: "tcp"}},
+			{"negative", &msg.NewProxy{ProxyName: "use-bwneg", ProxyType: "tcp", BandwidthLimit: "-1MB", BandwidthLimitMode: "server"}},
+			{"negative", &msg.NewProxy{ProxyName: "use-bwneg-kb", ProxyType: "tcp", BandwidthLimit: "-1KB", BandwidthLimitMode: "server", UseEncryption: true, UseCompression: true}},
+			{"negative", &msg.NewProxy{ProxyName: "use-bwneg-udp", ProxyType: "udp", BandwidthLimit: "-1MB", BandwidthLimitMode: "server"}},
+			{"zero", &msg.NewProxy{ProxyName: "use-bw0", ProxyType: "tcp", BandwidthLimit: "0MB", BandwidthLimitMode: "server"}},
+			{"zero", &msg.NewProxy{ProxyName: "use-bw0-udp", ProxyType: "udp", BandwidthLimit: "0KB", BandwidthLimitMode: "server"}},
+			{"one", &msg.NewProxy{ProxyName: "use-bw1", ProxyType: "tcp", BandwidthLimit: "1KB", BandwidthLimitMode: "server"}},
+			{"maxint", &msg.NewProxy{ProxyName: "use-bwmax", ProxyType: "tcp", BandwidthLimit: "9007199254740991MB", BandwidthLimitMode: "server"}},
+			{"garbage", &msg.NewProxy{ProxyName: "use-bwgarbage", ProxyType: "tcp", BandwidthLimit: "MB", BandwidthLimitMode: "server"}},
+			{"unknown", &msg.NewProxy{ProxyName: "use-bwmode", ProxyType: "tcp", BandwidthLimit: "1MB", BandwidthLimitMode: "neither"}},
+			{"nonutf8", &msg.NewProxy{ProxyName: "use-http-hdr", ProxyType: "http", CustomDomains: []string{"use1.test"}, HostHeaderRewrite: nonutf, Headers: map[string]string{nonutf: nonutf, "X-A": "b\r\nX-Injected: 1"}, ResponseHeaders: map[string]string{"": ""}}},
+			{"emptyelem", &msg.NewProxy{ProxyName: "use-http-loc", ProxyType: "http", CustomDomains: []string{"use2.test"}, Locations: []string{"", "//", "/\x00"}, HTTPUser: "", HTTPPwd: "x"}},
+			{"long", &msg.NewProxy{ProxyName: "use-http-long", ProxyType: "http", SubDomain: strings.Repeat("s", 300), RouteByHTTPUser: strings.Repeat("u", 3000)}},
+			{"negative", &msg.NewProxy{ProxyName: "use-http-bw", ProxyType: "http", CustomDomains: []string{"use3.test"}, BandwidthLimit: "-1MB", BandwidthLimitMode: "server"}},
+		}
+		for _, uc := range uses {
+			p, _, _ := peer.Login(srv.Addr, peer.LoginOpts{Token: env.Token})
+			if p == nil {
+				sink.Emit("drv", "crash.case", "msg", "NewProxy", "class", uc.class, "phase", "used", "alive", false, "name", uc.np.ProxyName)
+				ncase++
+				continue
+			}
+			ap := newAutoPeer(p, "u", func(_ *autoPeer, _ *msg.StartWorkConn, c net.Conn) {
+				_, _ = c.Write([]byte("HTTP/1.1 200 OK\r\nContent-Length: 2\r\nConnection: close\r\n\r\nok"))
+			})
+			resp, err := ap.NewProxy(uc.np, 3*time.Second)
+			accepted := err == nil && resp.Error == ""
+			if accepted {
+				switch uc.np.ProxyType {
+				case "tcp":
+					if c, err := net.DialTimeout("tcp", fmt.Sprintf("127.0.0.1:%d", portOfAddr(resp.RemoteAddr)), time.Second); err == nil {
+						_, _ = c.Write(bytes.Repeat([]byte("u"), 4096))
+						_ = c.SetReadDeadline(time.Now().Add(400 * time.Millisecond))
+						_, _ = c.Read(make([]byte, 512))
+						c.Close()
+					}
+				case "udp":
+					if c, err := net.Dial("udp", fmt.Sprintf("127.0.0.1:%d", portOfAddr(resp.RemoteAddr))); err == nil {
+						for i := 0; i < 3; i++ {
+							_, _ = c.Write([]byte("datagram"))
+							time.Sleep(30 * time.Millisecond)
+						}
+						c.Close()
+					}
+					time.Sleep(300 * time.Millisecond)
+				case "http":
+					host := "nohost.test"
+					if len(uc.np.CustomDomains) > 0 {
+						host = uc.np.CustomDomains[0]
+					} else if uc.np.SubDomain != "" {
+						host = uc.np.SubDomain + ".sub.test"
+					}
+					if c, err := net.DialTimeout("tcp", fmt.Sprintf("127.0.0.1:%d", vhost), time.Second); err == nil {
+						fmt.Fprintf(c, "GET / HTTP/1.1\r\nHost: %s\r\nAuthorization: Basic Ong=\r\n\r\n", host)
+						_ = c.SetReadDeadline(time.Now().Add(600 * time.Millisecond))
+						_, _ = c.Read(make([]byte, 512))
+						c.Close()
+					}
+				}
+			}
+			time.Sleep(100 * time.Millisecond)
+			ap.shutdown()
+			sink.Emit("drv", "crash.case", "msg", "NewProxy", "class", uc.class, "phase", "used", "alive", alive(), "name", uc.np.ProxyName, "accepted", accepted)
+			ncase++
+		}
 	}
 	sink.Emit("drv", "crash.coverage", "cases", ncase)
 	srv.Stop()
